@@ -1,6 +1,7 @@
 #!/bin/sh
 # merge the worker branches given as arguments into main; generated files are regenerated afterwards
 cd /verif || exit 1
+git checkout -- seeded 2>/dev/null
 if [ -n "$(git status --porcelain --untracked-files=no)" ]; then echo "STOP: working tree not clean"; exit 1; fi
 for b in "$@"; do
   echo "=== merging $b"
